@@ -121,9 +121,12 @@ class C06(runner.Check):
 		# 10 of machine epsilon, so batch shape changes results at the 1e-3 level
 		# for reasons that have nothing to do with the batching bookkeeping
 		mspec["dtype"] = "float64"
-		n = r.randint(1, 6)
-		ns = r.randint(1, 6)
-		world = {"n": n, "n_shuffles": ns, "xseed": r.subseed(),
+		n = r.wchoice([r.randint(1, 6), r.randint(9, 12)], [6, 1])
+		ns = r.randint(1, 6) if n <= 6 else r.randint(1, 3)
+		# the reference *function*: the default dinucleotide shuffle, or the plain
+		# shuffle (any callable with that signature is legal)
+		world_refgen = r.wchoice(["dinucleotide_shuffle", "shuffle"], [4, 1])
+		world = {"n": n, "n_shuffles": ns, "refgen": world_refgen, "xseed": r.subseed(),
 			"random_state": r.randint(0, 1000), "target": r.randint(0,
 			mspec["n_targets"] - 1)}
 		f = S("faults")
@@ -193,6 +196,9 @@ class C06(runner.Check):
 			kw["references"] = refs
 		elif refgen is not None:
 			kw["references"] = refgen
+		elif world.get("refgen", "dinucleotide_shuffle") != "dinucleotide_shuffle":
+			from tangermeme import ersatz
+			kw["references"] = getattr(ersatz, world["refgen"])
 		if seed_type != "int":
 			kw["random_state"] = getattr(numpy, seed_type.split(".")[1])(
 				world["random_state"])
@@ -305,7 +311,8 @@ class C06(runner.Check):
 					try:
 						self._dls(shared, X[idx], None if args is None else tuple(a[idx]
 							for a in args), op["mode"], world, batch_size=op["batch_size"],
-							refgen=mo._wrap("refgen", dinucleotide_shuffle))
+							refgen=mo._wrap("refgen", getattr(__import__("tangermeme.ersatz",
+								fromlist=["x"]), world.get("refgen", "dinucleotide_shuffle"))))
 					except BaseException as e:
 						if isinstance(e, (SystemExit, GeneratorExit)):
 							raise
@@ -384,8 +391,11 @@ class C06(runner.Check):
 								from tangermeme.deep_lift_shap import deep_lift_shap
 								with warnings.catch_warnings():
 									warnings.simplefilter("ignore")
+									from tangermeme import ersatz as _ers
 									yb, ya = marginalize(shared, Xs, op["motif"], func=deep_lift_shap,
 										args=a_s, additional_func_kwargs=dict(
+										references=getattr(_ers, world.get("refgen",
+											"dinucleotide_shuffle")),
 										target=world["target"], batch_size=bs, n_shuffles=ns,
 										hypothetical=(op["mode"] == "hypothetical"), device="cpu",
 										random_state=world["random_state"], warning_threshold=1e9))
